@@ -488,8 +488,47 @@ func (g *gen) autoInvariants(b *ssa.BasicBlock, li *loopInfo) []autoInv {
 		} else {
 			out = append(out, autoInv{name + ".upper", phi, "<=", init})
 		}
+		// go/ssa's lowering of `for i := range s`: header has  k = phi[-1, k+1…]; k1 = k + 1; if k1 < n …  with n
+		// computed before the loop and every back edge carrying k1 from the body (where k1 < n held): so k < n.
+		if phi.Comment == "rangeindex" && dir > 0 {
+			if n := rangeBound(b, phi); n != nil {
+				if ni, isInstr := n.(ssa.Instruction); !isInstr || !li.body[ni.Block()] {
+					out = append(out, autoInv{name + ".below.len", phi, "<", n})
+				}
+			}
+		}
 	}
 	return out
+}
+
+// rangeBound finds n in the header pattern  k1 = phi + 1; c = k1 < n; if c.
+func rangeBound(b *ssa.BasicBlock, phi *ssa.Phi) ssa.Value {
+	var k1 ssa.Value
+	for _, in := range b.Instrs {
+		if bo, ok := in.(*ssa.BinOp); ok {
+			if bo.Op == token.ADD && bo.X == phi {
+				if c, ok := bo.Y.(*ssa.Const); ok && c.Value != nil && c.Int64() == 1 {
+					k1 = bo
+				}
+			}
+			if bo.Op == token.LSS && k1 != nil && bo.X == k1 {
+				if ifi, ok := b.Instrs[len(b.Instrs)-1].(*ssa.If); ok && ifi.Cond == bo {
+					// every back edge must carry k1
+					for i, e := range phi.Edges {
+						_ = i
+						if c, isC := e.(*ssa.Const); isC && c.Value != nil && c.Int64() == -1 {
+							continue
+						}
+						if e != k1 {
+							return nil
+						}
+					}
+					return bo.Y
+				}
+			}
+		}
+	}
+	return nil
 }
 
 // stepDir: +1 if e is phi plus a positive constant (possibly through nested phis of such), -1 if minus.
